@@ -44,19 +44,57 @@ def no_depths(lines):
     return [l for l in lines if not l.startswith("DEPTHS")]
 
 
+_TRACE_GROUP = {"Var": "1vars", "Arg": "2args", "Dir": "3dirs", "Sel": "4selset"}
+
+
+def canon_tree(lines):
+    """The callback trace as a tree (enter/leave nesting), with the children of every node grouped by
+    the child LIST they belong to (variable definitions / arguments / directives / selection set;
+    everything else is one list) and the groups put in a fixed order: the property fixes the order
+    of siblings of one list, not the order in which a node's different child lists are visited.
+    A trace that is not well nested has no tree."""
+    root = ["ROOT", "", "", []]
+    stack = [root]
+    for l in lines:
+        if not l or l[0] not in "+-":
+            stack[-1][3].append([l, "", "", []])
+            continue
+        head, _, ans = l[1:].partition(" | ")
+        if l[0] == "+":
+            node = [head, ans, None, []]
+            stack[-1][3].append(node)
+            stack.append(node)
+        else:
+            if len(stack) < 2 or stack[-1][0] != head:
+                return ["MALFORMED: leave without matching enter: " + l]
+            stack[-1][2] = ans
+            stack.pop()
+    if len(stack) != 1:
+        return ["MALFORMED: %d node(s) never left" % (len(stack) - 1)]
+
+    def ser(n):
+        kids = sorted(n[3], key=lambda k: _TRACE_GROUP.get(k[0].split(" ", 1)[0], "0same"))  # stable
+        return [n[0], n[1], n[2], [ser(k) for k in kids]]
+    return [json.dumps(ser(root))]
+
+
 PROPS = {
     "C15": {
-        "rule": "random schema-aware documents (valid-biased, wild, deep) over the curated schema pool, each fifth also against a schema that defines none of its names, plus the schema visitor on every pool schema; compared: full callback sequence (kind, enter/leave, payload digest). distinct = distinct (schema, document); non-trivial = at least 6 node kinds and a nested list/object value (schema documents: more than 20 callbacks)",
+        "rule": "random schema-aware documents (valid-biased, wild, deep) over the curated schema pool, each fifth also against a schema that defines none of its names, plus the schema visitor on every pool schema; compared: full callback sequence (kind, enter/leave, payload digest) with the extracted model, and as a tree (nesting; siblings of one list in list order) with the specification's linearisation. distinct = distinct (schema, document); non-trivial = at least 6 node kinds and a nested list/object value (schema documents: more than 20 callbacks)",
         "nontrivial": nontrivial_c15,
         "impl_view": events_only,
         "model_view": events_only,
-        "spec_view": events_only,
+        # against the specification: as trees, insensitive to the order in which a node's different
+        # child lists are visited (the model comparison above stays sequence-exact)
+        "spec_view": lambda l: canon_tree(events_only(l)),
+        "impl_spec_view": lambda l: canon_tree(events_only(l)),
         "partial": "",
     },
     "C16": {
         "rule": "same generator families as C15; compared at every callback: the six context answers (current type, its literal, parent type, field definition, input type, its literal) and the six stack depths after the walk (hook verif_stack_depths). non-trivial = a list/object literal under a wrapped ([..]) expected type and at least one unknown field or argument",
         "nontrivial": nontrivial_c16,
-        "impl_spec_view": no_depths,
+        "impl_spec_view": lambda l: canon_tree(no_depths(l)),
+        "spec_view": lambda l: canon_tree(l),
         "partial": "",
     },
 }
@@ -399,7 +437,10 @@ PROPS["C17"] = {
     "nontrivial": c17_nontrivial,
     # oracle section: the specification's list of hook calls (logged) and its structural map of the
     # document; the implementation's log and resulting document must equal them
-    "compare_spec": lambda il, sl, meta, exempt: [l for l in il if not l.startswith("RESULT ")] == sl,
+    # (as multisets of calls plus the resulting document: "exactly once per node" and "the result is
+    # the input with each node replaced"; the ORDER of the calls is compared with the model only, the
+    # property fixes it inside one list, not between a node's different child lists)
+    "compare_spec": lambda il, sl, meta, exempt: sorted(l for l in il if not l.startswith("RESULT ")) == sorted(sl),
 }
 
 
